@@ -231,6 +231,19 @@ def build(repo):
             e.facts["_notify_sites"] = notify_sites
             e.facts["_appends"] = appends
             e.kind, e.why = _adapter_kind(e)
+            if e.kind is None:
+                # the syntactic reading of the pull sites does not recognise the shape of the code: observe the same facts on
+                # abstract runs of the public get_data() / source_updated() instead
+                beh = _behavioural_sites(repo, c)
+                if beh is not None:
+                    e.facts["_get_sites"], e.facts["_notify_sites"], e.facts["_appends"] = beh
+                    e.facts["get_pulls"] = [f"abstract-run:{s['time']}/{s['target']}" for s in beh[0]]
+                    e.facts["notify_pulls"] = [f"abstract-run:{s['time']}/{s['target']}" for s in beh[1]]
+                    e.facts["buffers"] = [f"{a['container']}({a['time']},packed={a['packed']})" for a in beh[2]]
+                    kind, why = _adapter_kind(e)
+                    if kind is not None:
+                        e.kind, e.why = kind, ""
+                        e.facts["classified_by"] = "abstract run"
             adapters.append(e)
         else:
             isin = repo.is_subclass(c, iin)
@@ -241,6 +254,83 @@ def build(repo):
                 e.kind = SRC_PUSH if (np_ is True and npl is False) else SRC_PULL if (npl is True and np_ is False) else None
             endpoints.append(e)
     return adapters, endpoints
+
+
+def _behavioural_sites(repo, c):
+    """(get sites, notify sites, buffer appends) of adapter class c as observed on abstract runs of its public get_data(q, target)
+    and source_updated(tn): every pull_data call with the time it asks for (same / delayed = with_delay(q) / other) and the
+    end point it names (forward = the requesting target / self / other); tuples (time, packed data) appended to a list
+    attribute during a notification.  None if the bodies are outside the vocabulary."""
+    from .absbase import FinamInterp, Logger, Order
+    from .interp import Closure, Obj, Raised, Sym, Undecided
+
+    class _Rec(FinamInterp):
+        def __init__(self, repo):
+            super().__init__(repo, Order())
+            self.pulls = []
+
+        def call_hook(self, fv, args, kwargs, node, mod):
+            if isinstance(fv, Closure) and fv.self_obj is not None:
+                n = getattr(fv.func, "name", "")
+                if n == "with_delay":
+                    return Sym("delayed", args[0])
+                if n == "pull_data":
+                    self.pulls.append((args[0], args[1] if len(args) > 1 else kwargs.get("target")))
+                    return Sym("pulled", args[0])
+                if n == "_pack":
+                    return Sym("packed", args[0])
+                if n in ("_pulled", "notify_targets"):
+                    return None
+            if isinstance(fv, Closure) and getattr(fv.func, "name", "") == "prepare":
+                return (Sym("prepared"), None) if kwargs.get("report_conversion") else Sym("prepared")
+            if isinstance(fv, Closure) and getattr(fv.func, "name", "") == "strip_time":
+                return Sym("stripped", args[0])
+            return super().call_hook(fv, args, kwargs, node, mod)
+
+    def mk():
+        from .rules.exchange import _adapter, _required_ctor
+        from .absbase import set_backed
+        me = _adapter(repo, c, ctor=_required_ctor(repo, c))
+        set_backed(repo, me, "info", Obj(label="info", fields={"grid": Sym("grid"), "units": Sym("u_out")}))
+        set_backed(repo, me, "in_info", Obj(label="in_info", fields={"grid": Sym("grid"), "units": Sym("u_in")}))
+        me.fields.setdefault("initial_time", Sym("init"))
+        return me
+
+    q, tn, tgt = Sym("q"), Sym("tn"), Obj(label="target")
+    try:
+        it = _Rec(repo)
+        it.order.name(q, "q", 1)
+        me = mk()
+        try:
+            it.run(repo.resolve(c, "get_data", "method"), [q, tgt], self_obj=me)
+        except Raised:
+            pass  # (empty buffer of a push-based adapter: the request is refused after / without pulling)
+        except (AnalysisError, Undecided):
+            if not it.pulls:
+                return None  # (what the adapter does with the pulled data is not part of the classification; the pull is)
+        gs = [{"time": "same" if t == q else "delayed" if t == Sym("delayed", q) else "other",
+               "target": "forward" if g is tgt else "self" if g is me else "other", "func": None} for t, g in it.pulls]
+        it = _Rec(repo)
+        it.order.name(tn, "tn", 1)
+        me = mk()
+        before = {k: list(v) for k, v in me.fields.items() if isinstance(v, list)}
+        try:
+            it.run(repo.resolve(c, "source_updated", "method"), [tn], self_obj=me)
+        except Raised:
+            pass
+        except (AnalysisError, Undecided):
+            if not it.pulls:
+                return None
+        ns = [{"time": "same" if t == tn else "other", "target": "self" if g is me else "forward" if g is tgt else "other", "func": None} for t, g in it.pulls]
+        aps = []
+        for k, v in me.fields.items():
+            if isinstance(v, list) and len(v) > len(before.get(k, [])):
+                for x in v[len(before.get(k, [])):]:
+                    if isinstance(x, tuple) and len(x) == 2:
+                        aps.append({"container": k, "time": "same" if x[0] == tn else "other", "packed": isinstance(x[1], Sym) and x[1].op == "packed"})
+        return gs, ns, aps
+    except (AnalysisError, Undecided, Raised, KeyError, TypeError, AttributeError):
+        return None
 
 
 def _adapter_kind(e):
